@@ -10,15 +10,15 @@ const char *vf_harness_name() { return "mem"; }
 
 namespace {
 enum Op { S_ALLOC, S_SHARE, S_SWAP, S_RESET, S_GET, S_UNIQUE, W_FROM, W_LOCK, W_SWAP, W_RESET,
-          U_ALLOC, U_GET, U_RELEASE, U_SWAP, U_RESET, NOPS };
+          U_ALLOC, U_GET, U_RELEASE, U_SWAP, U_RESET, S_BULK_SHARE, S_BULK_RESET, NOPS };
 const char *OPN[] = {"shared_alloc", "shared_share", "shared_swap", "shared_reset", "shared_get", "shared_unique", "weak_from",
-                     "weak_lock", "weak_swap", "weak_reset", "unique_alloc", "unique_get", "unique_release", "unique_swap", "unique_reset"};
+                     "weak_lock", "weak_swap", "weak_reset", "unique_alloc", "unique_get", "unique_release", "unique_swap", "unique_reset", "bulk_share", "bulk_reset"};
 const uint8_t PROFILES[][NOPS] = {
-    {1, 1, 1, 1, 1, 1, 1, 1, 1, 1, 1, 1, 1, 1, 1},
-    {4, 5, 2, 3, 1, 2, 4, 5, 2, 3, 1, 0, 1, 1, 1},
-    {3, 3, 3, 5, 0, 1, 3, 6, 1, 4, 0, 0, 0, 0, 0},
-    {2, 1, 0, 1, 1, 0, 1, 1, 0, 1, 5, 2, 4, 4, 4},
-    /* C16 */ {6, 2, 1, 2, 1, 1, 2, 2, 0, 1, 5, 1, 1, 1, 2},
+    {1, 1, 1, 1, 1, 1, 1, 1, 1, 1, 1, 1, 1, 1, 1, 1, 1},
+    {4, 5, 2, 3, 1, 2, 4, 5, 2, 3, 1, 0, 1, 1, 1, 1, 1},
+    {3, 3, 3, 5, 0, 1, 3, 6, 1, 4, 0, 0, 0, 0, 0, 1, 1},
+    {2, 1, 0, 1, 1, 0, 1, 1, 0, 1, 5, 2, 4, 4, 4, 0, 0},
+    /* C16 */ {6, 2, 1, 2, 1, 1, 2, 2, 0, 1, 5, 1, 1, 1, 2, 0, 0},
 };
 const int NPROFILES = 5;
 const int NS_MAX = 4, NW_MAX = 3, NU_MAX = 3;
@@ -40,6 +40,12 @@ cstl_shared_ptr_t SP[NS_MAX];
 cstl_weak_ptr_t WP[NW_MAX];
 cstl_unique_ptr_t UP[NU_MAX];
 int sh[NS_MAX], wk[NW_MAX], un[NU_MAX];   // model: index into A / UA or -1
+// many co-owners of one allocation (reference counts far beyond what a handful of objects reach)
+const size_t BULK_MAX = 70000;
+cstl_shared_ptr_t BULK[BULK_MAX];
+size_t bulk_n;
+int bulk_ai;
+bool g_allow_huge_bulk;
 int g_serial;
 
 // event log of the current op: interposer events + clear callbacks, in order
@@ -370,6 +376,34 @@ void apply(int op, uint8_t a, uint8_t b, int ns, int nw, int nu)
         TRACE("U%d swap U%d", u, u2);
         compare_events("unique_swap");
         break;
+    case S_BULK_SHARE: {
+        if (bulk_n || sh[i] < 0) { CNT("noop.bulk"); TRACE("bulk_share noop"); return; }
+        static const size_t NS[8] = {3, 17, 300, 255, 256, 257, 1000, 66000};
+        size_t n = NS[b % 8];
+        if (n > 1000 && !g_allow_huge_bulk) n = 40;
+        for (size_t k = 0; k < n; k++) {
+            cstl_shared_ptr_init(&BULK[k]);
+            LIB(cstl_shared_ptr_share(&SP[i], &BULK[k]));
+            A[sh[i]].owners.insert(1000 + (int)k);
+        }
+        bulk_n = n;
+        bulk_ai = sh[i];
+        TRACE("S%d shared into %zu further owners", i, n);
+        if (n > 60000) CNT("class.bulk.huge"); else CNT("class.bulk.small");
+        compare_events("bulk_share");
+        break;
+    }
+    case S_BULK_RESET: {
+        if (!bulk_n) { CNT("noop.bulk"); TRACE("bulk_reset noop"); return; }
+        for (size_t k = 0; k < bulk_n; k++) {
+            pred_drop_owner(bulk_ai, 1000 + (int)k);
+            LIB(cstl_shared_ptr_reset(&BULK[k]));
+        }
+        TRACE("%zu further owners reset", bulk_n);
+        bulk_n = 0;
+        compare_events("bulk_reset");
+        break;
+    }
     case U_RESET:
         if (un[u] >= 0) {
             UAlloc &x = UA[un[u]];
@@ -410,6 +444,9 @@ void vf_run(const uint8_t *data, size_t len)
     memset(&cx, 0, sizeof cx);
     A.clear();
     UA.clear();
+    bulk_n = 0;
+    bulk_ai = -1;
+    g_allow_huge_bulk = !g_want_state && (len > 4 && data[3] >= 128);   // header bit: scale run
     g_serial = 0;
     g_record_events = true;
     for (int i = 0; i < NS_MAX; i++) { cstl_shared_ptr_init(&SP[i]); sh[i] = -1; }
@@ -433,6 +470,7 @@ void vf_run(const uint8_t *data, size_t len)
     if (g_want_state && !marked) g_state = model_state(ns, nw, nu);
     // end of case: reset everything; nothing may stay allocated
     g_cur_op = "final reset";
+    if (bulk_n) apply(S_BULK_RESET, 0, 0, ns, nw, nu);
     for (int i = 0; i < ns; i++) apply(S_RESET, (uint8_t)i, 0, ns, nw, nu);
     for (int i = 0; i < nw; i++) apply(W_RESET, (uint8_t)i, 0, ns, nw, nu);
     for (int i = 0; i < nu; i++) apply(U_RESET, (uint8_t)i, 0, ns, nw, nu);
@@ -449,9 +487,16 @@ void vf_gen(Rng &r, std::vector<uint8_t> &out)
     out.push_back(r.byte());
     out.push_back(r.byte());
     out.push_back(r.byte());
-    out.push_back(c16 ? 4 : (uint8_t)(r.chance(1, 5) ? (r.chance(1, 2) ? 0 : 3) : 1 + r.below(2)));
+    bool scale = !c16 && r.chance(1, 3000);
+    // scale runs use profile 0 (130 % 5 == 0: op byte == op) so that the forced prefix below decodes as written
+    out.push_back(scale ? (uint8_t)130 : (uint8_t)(c16 ? 4 : (r.chance(1, 5) ? (r.chance(1, 2) ? 0 : 3) : 1 + r.below(2))));
     size_t n = c16 ? 6 + r.below(10) : r.chance(1, 3) ? 2 + r.below(12) : r.chance(2, 3) ? 8 + r.below(40) : 8 + r.below(200);
     for (size_t i = 0; i < n; i++) { out.push_back(r.byte() % 255); out.push_back(r.byte()); out.push_back(r.byte()); }
+    if (scale && out.size() >= 4 + 9) {
+        // alloc into S0, then 66000 further owners, then whatever the rest of the history does
+        out[4] = S_ALLOC; out[5] = 0; out[6] = 1;
+        out[7] = S_BULK_SHARE; out[8] = 0; out[9] = 7;
+    }
 }
 
 bool vf_scope(const std::string &name, Scope &s)
